@@ -42,4 +42,23 @@ PROPS = {
             "Core::resolve and Bridge::handle_response wrappers (they reach crossbeam channels)",
         ],
     },
+    "C17": {
+        "kani": ["crux_kv"],
+        "verus": ["K"],
+        "kani_timeout_quick": 420,
+        "kani_timeout_thorough": 3600,
+        "trusted_base": [
+            "Kani 0.68 / CBMC 6.11 and its SAT back end; rustc MIR of crux_kv incl. the real derive(Clone, PartialEq) code",
+            "Verus 0.2026.09.13 + Z3; vstd's specification of From/Into (ret == from_spec(v))",
+        ],
+        "assumptions": [
+            "Kani half: payload LENGTH bounded (value bytes <= 2, messages <= 2 chars, list page <= 2 keys of <= 1 char); the functions move payloads without inspecting them; Verus half has no such bound",
+            "Verus half: derive(Clone) on KeyValueError is a structural copy (assumed external_body spec; Kani executes the real derived clone)",
+            "Verus half: Vec<u8>/String/Vec<String> are opaque values; equality of a moved Vec is identity",
+        ],
+        "not_decided": [
+            "emission half of C17 (each API call emits exactly one KeyValueOperation carrying the arguments): runs through CapabilityContext/Command::request_from_shell (async, crossbeam) - unreachable for both tools",
+            "identity across the serialized bridge (serde derive + serde_bytes round trip)",
+        ],
+    },
 }
